@@ -68,8 +68,8 @@ def ensure_coq():
 
 def batches(tier):
     if tier == 'thorough':
-        return [('mixed', 18000, 90), ('faults', 18000, 90)]
-    return [('mixed', 1200, 45), ('faults', 1200, 45)]
+        return [('mixed', 18000, 90), ('faults', 18000, 90), ('long', 12, 0)]
+    return [('mixed', 1200, 45), ('faults', 1200, 45), ('long', 2, 0)]
 
 
 def gen_traces(seed, profile, n, maxlabels):
